@@ -54,6 +54,11 @@ func NewVerifier(method string) (verify.RequestVerifier, error) {
 // in all modified requests. An error will be added to the contained *MultiError
 // if a method is unmatched.
 func (v *verifier) ModifyRequest(req *http.Request) error {
+	// skip requests to API
+	if ctx := martian.NewContext(req); ctx != nil && ctx.IsAPIRequest() {
+		return nil
+	}
+
 	m := req.Method
 
 	if v.method != "" && v.method != m {
